@@ -15,7 +15,7 @@ import gtirb_functions
 
 from . import compare as C
 from . import listing as Lg
-from .run import ASPECTS, exc_diff, is_documented_refusal, label_roles
+from .run import ASPECTS, branch_into_data, exc_diff, is_documented_refusal, label_roles
 
 SHORT = {".text": "t", ".data": "d", ".rodata": "r"}
 
@@ -144,6 +144,8 @@ def step(w, mod, aspects, problem_kinds):
         ctx.apply()
     except Exception as exc:
         if expect is not None and is_documented_refusal(exc):
+            return [], "refused"
+        if branch_into_data(E) and type(exc).__name__ == "UnsupportedAssemblyError" and "data blocks" in str(exc):
             return [], "refused"
         return [exc_diff(spec, [mod], exc)], "raised"
     O = Lg.observe(w)
